@@ -115,6 +115,16 @@ CLAIMED = {
    note=TRUST + "Acceptance limits of CPython are measured, not proved.",
    technique="Coq depth bound (induction) over the converter model + measured size schedule per family/config",
    ref="5/C17"),
+ "C09": dict(
+   text="Theorems over the converter model's naming function: C09_helper_reserved / C09_user_name_not_helper (every helper name carries "
+        "the reserved prefix, so no identifier without it - `_`, `k`, `v`, `self`, `it`, `itertools`, builtins ... - can equal a helper "
+        "name), C09_distinct_kinds / _positions / _namespaces (temporaries created for different purposes, statement positions or "
+        "namespaces never share a name; injectivity of the position code). Partial: that no un-reserved scaffolding binder captures user "
+        "code is audited syntactically on every real output and decided by executing the (identifier x role x feature) matrix; the real "
+        "converter's random suffixes are assumed collision-free. One known finding (shadowed builtins).",
+   note=TRUST + "Names in the model are derived from statement positions; the real code draws random suffixes (both are renamed by first occurrence before comparison).",
+   technique="Coq proof of prefix/injectivity properties of the naming function + AST correspondence + binder audit + differential execution of the identifier matrix",
+   ref="5/C09"),
 }
 PENDING_REASON = "not yet built in this round: model/theorem under construction (see DESIGN.md section 8 build order); not claimed until its minimum is proved and tied"
 ALL = [f"C{i:02d}" for i in range(1, 18)]
